@@ -26,14 +26,15 @@ class DatasetAxes(Axes):
         self._ds = ds  # attached dataset
 
     def __setitem__(self, key, item):
-        name = self[key].name # key may be a position
-        super(DatasetAxes, self).__setitem__(key, item)
+        pos = self._get_idx(key) # key may be a name, which the new axis may change
+        name = self[pos].name
+        super(DatasetAxes, self).__setitem__(pos, item)
         # also apply the change to the contained DimArrays
         for k in self._ds.keys():
             dima = self._ds[k]
             if name not in dima.dims: 
                 continue
-            dima.axes[name] = self[key]
+            dima.axes[name] = self[pos]
 
     def __deepcopy__(self, memo):
         ' deepcopy interface otherwise fails '
